@@ -393,6 +393,9 @@ def monitor(scen, plan, kind, ref, out, resolver):
         for v in vs:
             if "!r" in v or "!h" in v:
                 probs.append(("acct", "%s=%s: a failed call changed the request/handle counters" % (k, v)))
+            if "!q" in v:
+                probs.append(("acct", "%s=%s: a failed call left a handle linked in loop->handle_queue (uv_walk sees it, uv_loop_close stays UV_EBUSY "
+                              "until somebody closes a handle the caller never got)" % (k, v)))
             if "!w" in v:
                 probs.append(("acct", "%s=%s: a failed call changed the number of kernel inotify watches" % (k, v)))
     for k in m:
